@@ -18,16 +18,8 @@ and then, inside that namespace only,
     /etc, applies the case's preconditions, runs the real binary with the raw
     argv bytes (timeout 10 s), copies out what it wrote, unmounts.
 
-  * per remap scenario (job["remap_cases"], spec files in the format of
-    `tm-harness listing-gen`): fabricates /proc/bus/input/devices (a file bound
-    over it), /sys/devices and /dev/input (tmpfs; every node a plain file) and
-    runs the real binary in the three ways of naming devices: --all-keyboards,
-    --dev-file <every node> --only-if-keyboard, --auto-all-keyboards (which never
-    returns: killed with SIGKILL once its first round is printed, 3 s at most);
-    raw outputs are written out, cli.py judges them.
-
 Nothing outside the namespace is written except below the job's work directory."""
-import sys, os, json, subprocess, shutil, stat, time, select
+import sys, os, json, subprocess, shutil, stat
 
 STUB_LOG = "/dev/.cli-stub.log"
 STUB = "#!/bin/sh\necho \"$0 $*\" >> %s\nexit 0\n" % STUB_LOG
@@ -52,133 +44,16 @@ def fail(msg):
     sys.exit(0)
 
 
-def unhex(h):
-    return bytes.fromhex(h).decode("utf-8", "surrogateescape")
-
-
-def read_spec(path):
-    sc = {"text": b"", "sys": [], "dev": [], "excl": []}
-    for line in open(path, encoding="ascii", errors="replace"):
-        t = line.rstrip("\n").split(" ")
-        if t[0] == "TEXT" and len(t) > 1:
-            sc["text"] = bytes.fromhex(t[1])
-        elif t[0] == "SYS" and len(t) > 2:
-            sc["sys"].append((unhex(t[1]), t[2], t[3] if len(t) > 3 else "", unhex(t[4]) if len(t) > 4 else ""))
-        elif t[0] == "DEV" and len(t) > 2:
-            sc["dev"].append((unhex(t[1]), t[2], unhex(t[3]) if len(t) > 3 else ""))
-        elif t[0] == "EXC" and len(t) > 1:
-            sc["excl"].append(bytes.fromhex(t[1]))
-    return sc
-
-
-def run_plain(binp, argv, cwd):
-    try:
-        p = subprocess.run([binp.encode()] + argv, cwd=cwd, stdin=subprocess.DEVNULL, stdout=subprocess.PIPE, stderr=subprocess.PIPE, timeout=10)
-        return {"rc": p.returncode, "timeout": False, "stdout": p.stdout[:20000].decode("utf-8", "replace"), "stderr": p.stderr[:40000].decode("utf-8", "replace")}
-    except subprocess.TimeoutExpired as ex:
-        return {"rc": None, "timeout": True, "stdout": (ex.stdout or b"")[:20000].decode("utf-8", "replace"), "stderr": (ex.stderr or b"")[:40000].decode("utf-8", "replace")}
-
-
-def run_auto(binp, argv, cwd, cap=3.0):
-    """--auto-all-keyboards blocks in inotify for ever after its first round: read stderr until the round is printed
-    (the 'Checking which devices are already running:' block went quiet), then SIGKILL; never longer than `cap` seconds"""
-    so = open(os.path.join(cwd, "auto.stdout"), "wb")
-    p = subprocess.Popen([binp.encode()] + argv, cwd=cwd, stdin=subprocess.DEVNULL, stdout=so, stderr=subprocess.PIPE)
-    fd = p.stderr.fileno()
-    os.set_blocking(fd, False)
-    buf, t0, last, exited = b"", time.time(), time.time(), False
-    while time.time() - t0 < cap:
-        r, _, _ = select.select([fd], [], [], 0.05)
-        if r:
-            try:
-                chunk = os.read(fd, 65536)
-            except BlockingIOError:
-                chunk = None
-            if chunk == b"":
-                exited = True
-                break
-            if chunk:
-                buf += chunk
-                last = time.time()
-        elif b"Checking which devices are already running:" in buf and time.time() - last > 0.3:
-            break
-    rc = p.poll()
-    p.kill()
-    p.wait()
-    so.close()
-    return {"rc": rc, "exited_by_itself": exited or rc is not None, "seconds": round(time.time() - t0, 2),
-            "stdout": open(os.path.join(cwd, "auto.stdout"), "rb").read()[:20000].decode("utf-8", "replace"), "stderr": buf[:40000].decode("utf-8", "replace")}
-
-
-def remap_case(job, case, work):
-    cdir = os.path.join(work, "out", case["id"])
-    os.makedirs(cdir, exist_ok=True)
-    res = {"id": case["id"], "setup_error": None}
-    sc = read_spec(case["spec"])
-    mounted = []
-    try:
-        for mp in ("/sys/devices", "/dev/input"):
-            if not ok(["mount", "-t", "tmpfs", "tmpfs", mp]):
-                raise RuntimeError("tmpfs on " + mp)
-            mounted.append(mp)
-        devices = os.path.join(cdir, "devices")
-        open(devices, "wb").write(sc["text"])
-        if not ok(["mount", "--bind", devices, "/proc/bus/input/devices"]):
-            raise RuntimeError("bind over /proc/bus/input/devices")
-        mounted.append("/proc/bus/input/devices")
-        nodes = []
-        for sysfs, kind, ev, devname in sc["sys"]:
-            if not sysfs.startswith("/devices/") or ".." in sysfs:
-                continue
-            d = "/sys" + sysfs
-            if kind == "missing":
-                pass
-            elif kind == "empty":
-                os.makedirs(d + "/id", exist_ok=True)
-                open(d + "/uevent", "w").write("PRODUCT=3/46d/c31c/110\n")
-            elif kind == "nodevname":
-                os.makedirs(d + "/" + ev, exist_ok=True)
-                open(d + "/" + ev + "/uevent", "w").write("MAJOR=13\nMINOR=70\n")
-            elif kind == "nouevent":
-                os.makedirs(d + "/" + ev, exist_ok=True)
-            else:
-                os.makedirs(d + "/" + ev, exist_ok=True)
-                os.makedirs(d + "/capabilities", exist_ok=True)
-                open(d + "/name", "w").write("x\n")
-                open(d + "/" + ev + "/uevent", "w").write("MAJOR=13\nMINOR=70\nDEVNAME=%s\n" % devname)
-                if devname.startswith("input/") and "/" not in devname[6:] and ".." not in devname:
-                    nodes.append("/dev/" + devname)
-        for path, kind, target in sc["dev"]:
-            if not path.startswith("/dev/input/") or ".." in path:
-                continue
-            os.makedirs(os.path.dirname(path), exist_ok=True)
-            if kind == "file":
-                open(path, "w").close()
-            elif not os.path.lexists(path):
-                os.symlink(target, path)
-        for n in nodes:      # in this fabricated system every node named by /sys exists
-            if not os.path.lexists(n):
-                open(n, "w").close()
-        nodes = sorted(set(nodes))
-        ex = []
-        for i, p in enumerate(sc["excl"]):
-            ex += [b"--exclude=" + p] if (i + case.get("salt", 0)) % 3 == 0 else [b"--exclude", p]
-        lay = [b"--default-layout", case.get("layout", "caps-for-movement").encode()]
-        argvs = {"all": [b"remap"] + lay + [b"--all-keyboards", b"--verbose"] + ex,
-                 "dev_file": [b"remap", b"--verbose"] + ex + lay + [b"--only-if-keyboard"] + [w for n in nodes for w in (b"--dev-file", n.encode())],
-                 "auto": [b"remap"] + ex + [b"--auto-all-keyboards"] + lay + [b"--verbose"]}
-        res["nodes"] = nodes
-        res["argv"] = {k: [a.decode("utf-8", "backslashreplace") for a in v] for k, v in argvs.items()}
-        res["all"] = run_plain(job["bin"], argvs["all"], cdir)
-        res["dev_file"] = run_plain(job["bin"], argvs["dev_file"], cdir) if nodes else None
-        res["auto"] = run_auto(job["bin"], argvs["auto"], cdir)
-    except Exception as ex:  # noqa
-        res["setup_error"] = "%s: %s" % (type(ex).__name__, ex)
-    finally:
-        for mp in reversed(mounted):
-            if not ok(["umount", mp]):
-                ok(["umount", "-l", mp])
-    json.dump(res, open(os.path.join(cdir, "remap.json"), "w"))
+def unit_files():
+    """{path: (mtime_ns, size, inode)} of the regular *.service files below /etc/systemd/system"""
+    res = {}
+    for d, dn, fn in os.walk("/etc/systemd/system"):
+        for f in fn:
+            p = os.path.join(d, f)
+            if f.endswith(".service") and os.path.isfile(p) and not os.path.islink(p):
+                st = os.stat(p)
+                res[p] = (st.st_mtime_ns, st.st_size, st.st_ino)
+    return res
 
 
 def main():
@@ -321,6 +196,7 @@ def main():
             else:
                 os.chmod("/dev/uinput", 0o600)
             open(STUB_LOG, "w").close()
+            units_before = unit_files()
             argv = [bytes.fromhex(a) for a in case["argv_hex"]]
             # own session: on a time-out the whole group (the binary and whatever it started) is listed and killed
             p = subprocess.Popen([job["bin"].encode()] + argv, cwd=cdir, stdin=subprocess.DEVNULL, stdout=subprocess.PIPE,
@@ -340,8 +216,38 @@ def main():
             open(os.path.join(cdir, "stdout"), "wb").write(so[:20000])
             open(os.path.join(cdir, "stderr"), "wb").write(se[:20000])
             for k, p in OUT_FILES.items():
-                if os.path.isfile(p):
+                if os.path.isfile(p) and k not in ("unit", "layout"):
                     shutil.copyfile(p, os.path.join(cdir, k))
+            # the unit: whatever *.service file this run created or rewrote below /etc/systemd/system - the expected name
+            # if it is among them, else the only one; the layout: the file the unit's --layout-file argument names
+            units_after = unit_files()
+            new_units = sorted(p for p, sig in units_after.items() if units_before.get(p) != sig)
+            meta["new_units"] = new_units
+            chosen = OUT_FILES["unit"] if OUT_FILES["unit"] in new_units else (new_units[0] if len(new_units) == 1 else None)
+            meta["unit_path"] = chosen
+            if chosen:
+                shutil.copyfile(chosen, os.path.join(cdir, "unit"))
+            elif os.path.isfile(OUT_FILES["unit"]):
+                meta["unit_stale"] = True          # there, but not written by this run
+                shutil.copyfile(OUT_FILES["unit"], os.path.join(cdir, "unit_stale"))
+            lay = None
+            if chosen:
+                try:
+                    for line in open(chosen, "rb").read().decode("utf-8", "replace").split("\n"):
+                        if line.startswith("ExecStart="):
+                            w = line[len("ExecStart="):].split()
+                            for i, x in enumerate(w):
+                                if x == "--layout-file" and i + 1 < len(w):
+                                    lay = w[i + 1]
+                                elif x.startswith("--layout-file="):
+                                    lay = x[len("--layout-file="):]
+                except OSError:
+                    pass
+            if not (lay and lay.startswith("/") and "\\" not in lay and os.path.isfile(lay)):
+                lay = OUT_FILES["layout"]
+            meta["layout_path"] = lay
+            if os.path.isfile(lay):
+                shutil.copyfile(lay, os.path.join(cdir, "layout"))
             meta["stub_calls"] = open(STUB_LOG).read().split("\n")[:-1]
             try:
                 meta["rules_d"] = sorted(os.listdir("/etc/udev/rules.d"))
@@ -359,9 +265,7 @@ def main():
             if os.path.ismount(newetc):      # the --bind fallback leaves the tmpfs mounted there as well
                 ok(["umount", "-l", newetc])
         json.dump(meta, open(os.path.join(cdir, "meta.json"), "w"))
-    for case in job.get("remap_cases", []):
-        remap_case(job, case, work)
-    print("NSDONE %d" % (len(job["cases"]) + len(job.get("remap_cases", []))))
+    print("NSDONE %d" % len(job["cases"]))
 
 
 if __name__ == "__main__":
